@@ -98,10 +98,11 @@ func cmdCheck(args []string) int {
 		// inconclusive: nothing was shown to be violated; evidence says what happened
 		fmt.Printf("INCONCLUSIVE property=%s reason=%s\n", id, reason)
 		ev := map[string]interface{}{
-			"property_id": id, "tier": tierName, "seed": seed, "level": "model_checking",
-			"coverage": map[string]interface{}{"evaluations": 0, "distinct_nontrivial": 0, "explanation": "check could not run: " + reason,
+			"property_id": id, "tier": tierName, "seed": seed, "level": "other",
+			"coverage": map[string]interface{}{"explanation": "the check could not run on this tree, nothing is claimed: " + reason,
 				"obligations": 0, "discharged": 0, "inconclusive": []string{reason}},
-			"wall_s": time.Since(t0).Seconds(), "violations": 0,
+			"assumptions": []string{},
+			"wall_s":      time.Since(t0).Seconds(), "violations": 0,
 		}
 		writeJSON(evPath, ev)
 		return 0
